@@ -14,6 +14,9 @@ COMMON_NOTE = ("trusted: Coq 8.16.1 kernel incl. vm_compute (no native_compute; 
 ENGINES = {
     "coq-tree": ("coq/tree", "yield-passing model of walk.Plan + declarative specification"),
     "coq-builder": ("coq/builder", "cursor-machine model of builder.go + recursive-descent reference"),
+    "coq-secure": ("coq/secure", "universe of Go values + function-by-function transcription of clone/secure.go, clone entry points, reports.Render, registry.findSecrets"),
+    "coq-clone": ("coq/clone", "value-level and location-labelled transcription of clone.go"),
+    "coq-attempts": ("coq/attempts", "functional model of one action run (actions.go + Backoff.Retry) and its observable automaton"),
     "coq-api": ("coq/api", "small-step model of Plans.Start / the run goroutine / Wait, Status, Plan, Submit"),
     "coq-validate": ("coq/validate", "transcription of workflow.Validate (BFS queue, shared key set), Defaults, Submit, validateStartState + declarative WF"),
 }
@@ -66,6 +69,48 @@ CHECKS["C16"] = dict(
          "cosmosdb, concurrent Submits, what Create does on failure (C14)",
     technique="Coq proof (queue invariant, permutation of key sets, state-passing walk) + differential correspondence against the spec",
     design="DESIGN.md section 6 C16, section 13")
+
+CHECKS["C17"] = dict(
+    engine="coq-secure",
+    text="Coq theorems for ALL Go values (any nesting of structs incl. embedded/unexported, pointers, slices, maps, interfaces, arrays, nil "
+         "anywhere): the model of clone.Secure never panics and equals the one-screen specification scrub; every exposed secure-tagged field "
+         "is '[secret hidden]'/zero and nothing else changes (erase equality); the same for every request/response of the five clone entry "
+         "points (with and without keep-state) and for every template input of reports.Render; findSecrets errs iff a secret-looking "
+         "untagged field is reachable through struct/pointer nesting. Tied to /repo by a kernel-checked (vm_compute) differential "
+         "correspondence on run-time-built (reflect.StructOf) and hand-declared types, with canary byte-search in clone JSON and in every "
+         "rendered file, and Register verdicts.",
+    note="exclusions by the code's own documentation: below arrays, ordinary unexported fields; deepcopy = value-equal copy is a premise; "
+         "original-unchanged is observed (and is C18's no-sharing theorem), not proved here; registry nesting = structs and pointers only "
+         "(slices/maps of structs are not followed by the code: recorded as interpretation); tree values only (no sharing/cycles)",
+    technique="Coq proof (refinement of the reflective dispatch to a structural specification, nested induction) + differential correspondence + canary search",
+    design="DESIGN.md section 6 C17, section 13")
+CHECKS["C18"] = dict(
+    engine="coq-clone",
+    text="13 closed Coq theorems over an executable model of clone.go (value-level and with allocation labels) for ALL inputs of the five "
+         "object kinds and all option sets: definition preserved (without keys), default clone pristine and accepted by validate whenever "
+         "the definition is well formed whatever state the original is in, keep-state preserves ids/statuses/times/reason/submit "
+         "time/attempts, the labelled clone refines the value clone and shares no location with anything that existed before. Tied to "
+         "/repo by a kernel-checked correspondence on observations of the real clone functions in five execution states x five kinds x "
+         "four option sets, incl. workflow.Validate, a real Submit, reflect-based address disjointness and mutate-one-observe-other monitors.",
+    note="deep.MustCopy, clone.Secure on one value (C17) and the registry are premises (Section variables); resubmittability of a scrubbed "
+         "clone needs plugins to accept scrubbed requests (premise, shown necessary by an Example); WithRemoveCompletedSequences is outside "
+         "the property",
+    technique="Coq proof (field-by-field refinement, allocation-counter monad for no-sharing) + differential correspondence + address/mutation monitors",
+    design="DESIGN.md section 6 C18, section 13")
+CHECKS["C05"] = dict(
+    engine="coq-attempts",
+    text="Coq theorems over run_action (a functional transcription of actions.go and Backoff.Retry) for ALL retry budgets and ALL outcome "
+         "scripts, and over the observable one-action automaton for ALL accepted traces: at most retries+1 invocations, none after a final "
+         "outcome, one recorded attempt per invocation in order with exactly the stored response/error the outcome dictates (timeout = "
+         "non-permanent engine error with the plugin's context cancelled; wrong type = permanent error, response dropped), start<=end, "
+         "final status; the automaton refines the Appendix-B monitor and accepts the model's own trace. Correspondence: every script of the "
+         "bounded-exhaustive family x retries 0-4 plus random plans through the real engine (sequence and check actions, each continuous "
+         "run separately), compared per run with model, monitor and automaton inside coqc (vm_compute).",
+    note="model of one action run (engine-level composition is the engine automaton of C01-C08); not covered: back-off durations, cancelled "
+         "plan contexts, recovered actions, tries that time out in the worker pool before the plugin is entered (treated as load disturbance "
+         "and re-run)",
+    technique="Coq proof (fuelled functional model, product invariant automaton/monitor) + differential correspondence against the real engine",
+    design="DESIGN.md section 6 C05, section 13")
 
 PENDING_REASON = "check under construction in this session (see DESIGN.md section 12 build order); not yet claimed"
 
